@@ -65,6 +65,20 @@ Definition dual_pairs (F : list face) (E : list edge) : list (Z * edge * Z * Z) 
 Definition last_write {A} (w : list (Z * A)) (k : Z) (d : A) : A :=
   fold_left (fun acc kv => if fst kv =? k then snd kv else acc) w d.
 
+(* ================================================================== the public stage methods and the order a caller uses them in
+   initialize() / optimize() / run() (= __call__): the flags each one reads and sets, the stages it executes.  optimize()
+   on a field that was never initialised raises (_check_init): nothing is executed. *)
+Inductive call := CInit | COpt | CRun.
+Definition exec_call (init_sets opt_sets : bool) (st : ffstate) (c : call) : ffstate :=
+  match c with
+  | CInit => let st1 := st_push SInit st in if init_sets then st_seti true st1 else st1
+  | COpt => if st_i st then (let st1 := st_push SOpt st in if opt_sets then st_sets true st1 else st1) else st
+  | CRun => run_step st
+  end.
+Definition fresh_state : ffstate := (false, false, []).
+Definition exec_calls (init_sets opt_sets : bool) (p : list call) : ffstate :=
+  fold_left (exec_call init_sets opt_sets) p fresh_state.
+
 Section Model.
 Context {T : Type} (O : ops T).
 Notation vec := (vec T).
